@@ -184,6 +184,23 @@ def scenarios_for(prop, tier, rng):
                             order=perm(rng, 2), reg_order=perm(rng, 2),
                             lookups=[rng.randint(1, 2) for _ in range(rng.randint(0, 3))] if prop == "C04" else [],
                             seed=rng.randint(0, 2 ** 31), sid=sid()))
+        # every lifecycle mode a processor can impose x every callback that mode still reaches, failing ONE AT A TIME (a second
+        # fault elsewhere would hide a swallowed error behind its own failure)
+        reach = {"normal": el.FAILS[1:], "beforeNil": ["resolve", "before"], "shortcut": ["after"]}
+        fam2 = []
+        for s1 in nodes2:
+            for s2 in nodes2:
+                for md in itertools.product(["normal", "beforeNil", "shortcut"], repeat=2):
+                    for who in (0, 1):
+                        for f in reach[md[who]]:
+                            fl = ["none", "none"]
+                            fl[who] = f
+                            fam2.append(([s1, s2], list(md), fl))
+        for s, md, fl in (fam2 if thorough else rng.sample(fam2, 500)):
+            add(el.scenario(2, s, [set(), set()], mode=md, fail=fl, self_opt=[rng.random() < .5, rng.random() < .5],
+                            order=perm(rng, 2), reg_order=perm(rng, 2), lazy=[x for x in (1, 2) if rng.random() < 0.2],
+                            lookups=[rng.randint(1, 2) for _ in range(rng.randint(0, 2))] if prop == "C04" else [],
+                            seed=rng.randint(0, 2 ** 31), sid=sid()))
         for n, cnt in ([(3, 500), (4, 300), (6, 80)] if not thorough else [(3, 6000), (4, 6000), (5, 3000), (6, 1500), (8, 500)]):
             for _ in range(cnt):
                 add(el.rand_scenario(rng, n, p_edge=rng.choice([0.25, 0.4, 0.6]), fails=rng.choice([0.15, 0.4]),
